@@ -229,7 +229,9 @@ pub fn run_c09(ctx: &Ctx) -> i32 {
     let cap: u128 = ctx.tier.pick(2, 3);
     let denoms: Vec<&str> = ctx.tier.pick(vec!["x", "y"], vec!["x", "y"]);
     let c = |d: &str, a: u128| (d.to_string(), a);
-    let mut lists: Vec<Coins> = vec![vec![], vec![c("x", 0)], vec![c("x", 1)], vec![c("x", 2)], vec![c("x", 1), c("y", 1)], vec![c("x", 1), c("x", 1)], vec![c("x", 0), c("y", 1)], vec![c("x", 0), c("y", 0)], vec![c("x", 3)]];
+    let mut lists: Vec<Coins> = vec![vec![], vec![c("x", 0)], vec![c("x", 1)], vec![c("x", 2)], vec![c("x", 1), c("y", 1)], vec![c("x", 1), c("x", 1)], vec![c("x", 0), c("y", 1)], vec![c("x", 0), c("y", 0)], vec![c("x", 3)],
+        // repeated denomination whose coins are affordable one by one but not together (balance 2)
+        vec![c("x", 1), c("x", 2)], vec![c("x", 2), c("x", 2)]];
     if ctx.tier == Tier::Thorough {
         lists.push(vec![c("y", 2), c("x", 1), c("y", 1)]);
         lists.push(vec![c("z", 1)]);
